@@ -11,6 +11,7 @@ import Chewing.Proofs.TrieOrder
 import Chewing.Proofs.TrieEntries
 import Chewing.Proofs.TrieConforms
 import Chewing.Proofs.TrieFirstN
+import Chewing.Proofs.TrieValidWrite
 /-!
 # C11 — A trie dictionary file returns exactly what was put in, in the documented order
 
@@ -168,11 +169,22 @@ theorem bfs_layout (b : TrieCodec.Builder) (hb : b.WF) (recs : List Rec) (data :
 /-- inside the format's limits `write` does not fail -/
 theorem writes_within_limits (b : TrieCodec.Builder) (hf : b.Fits) : b.write.isSome = true := write_isSome b hf
 
+/-- **validate_write**: the structural check `Trie::new` performs on the decoded index since the repair of C12's
+    findings F16 / F17 (`validate_index`: child ranges after their node and in ascending order, inside the index, no
+    leaf record but at the first position of a child range, leaf data inside the phrase bytes) accepts the index of
+    EVERY file `TrieBuilder::write` produces — the scan runs along the order in which the BFS emits the records and
+    its `next` is the writer's `child_begin` (`writeLoop_scan`).  So `openTrie` (which ends with that check) still
+    opens every written file: `read_write` and `C11` keep their statements. -/
+theorem validate_write (b : TrieCodec.Builder) (hb : b.WF) (recs : List Rec) (data : Bytes)
+    (h : b.buffers = some (recs, data)) (hr : recs.length < 4294967296) (hd : data.length < 4294967296) :
+    TrieValidate.validate recs data.length = true ∧ validIndex (recs.flatMap recBytes) data = true :=
+  ⟨validate_buffers b hb recs data h hr hd, validIndex_write b hb recs data h hr hd⟩
+
 /-- the real reader on a written file: metadata, and every lookup is the walk on the builder tree -/
 theorem read_write (b : TrieCodec.Builder) (hb : b.WF) (hi : ValidInfo b.info) (bytes : Bytes) (hw : b.write = some bytes) :
     ∃ t, openTrie bytes = some t ∧ about t = b.info ∧
       ∀ st key, ValidKey key → lookupAll t key st = tLookup st key b.root := by
-  obtain ⟨recs, data, hbuf, _, hopen, hr, hd⟩ := openTrie_write b hi bytes hw
+  obtain ⟨recs, data, hbuf, _, hopen, hr, hd⟩ := openTrie_write_wf b hb hi bytes hw
   refine ⟨_, hopen, rfl, ?_⟩
   intro st key hkey
   exact lookupAll_eq_tLookup (TrieCodec.bfs_layout b hb recs data hbuf hr hd) (root_pre b hb) ⟨_, _, rfl⟩ st key hkey
@@ -291,7 +303,7 @@ theorem entries_correct (info : Info) (es : List Entry) (hv : ValidInput info es
         entries t = .ok (groups.flatMap fun g => (leafOut g).map fun p => (g.1, p)) := by
   have hwf := WF_ofEntries info es hv.2
   have hi : ValidInfo (TrieCodec.Builder.ofEntries info es).info := by rw [info_ofEntries]; exact hv.1
-  obtain ⟨recs, data, hbuf, _, hopen, hr, hd⟩ := openTrie_write _ hi bytes hw
+  obtain ⟨recs, data, hbuf, _, hopen, hr, hd⟩ := openTrie_write_wf _ hwf hi bytes hw
   have hlaid := TrieCodec.bfs_layout _ hwf recs data hbuf hr hd
   have hcount := writeLoop_count _ _ _ _ _ _ _ hbuf
   have hq : qsize [(TrieCodec.Builder.ofEntries info es).root] = (TrieCodec.Builder.ofEntries info es).root.size := by
@@ -318,7 +330,7 @@ theorem read_write_first_n (b : TrieCodec.Builder) (hb : b.WF) (hi : ValidInfo b
     ∃ t, openTrie bytes = some t ∧ ∀ st key n, ValidKey key →
       lookupFirstN t key n st = (cutoff n [] ((tWalk st key [b.root]).map Item.leafPhrases)).take n ∧
       lookupAll t key st = ((tWalk st key [b.root]).map Item.leafPhrases).flatten := by
-  obtain ⟨recs, data, hbuf, _, hopen, hr, hd⟩ := openTrie_write b hi bytes hw
+  obtain ⟨recs, data, hbuf, _, hopen, hr, hd⟩ := openTrie_write_wf b hb hi bytes hw
   refine ⟨_, hopen, ?_⟩
   intro st key n hkey
   have hl := TrieCodec.bfs_layout b hb recs data hbuf hr hd
@@ -410,7 +422,7 @@ theorem reader_on_conforming_file (bytes : Bytes) (hc : Conforms bytes) :
       ∃ groups : List (List Nat × List Phrase),
         (groups.map (·.1)).Nodup ∧ (∀ k ps, (k, ps) ∈ groups ↔ findNode k (l, sub) = some ps) ∧
         entries t = .ok (groups.flatMap fun g => (leafOut g).map fun p => (g.1, p)) := by
-  obtain ⟨info, recs, phrases, l, sub, hbytes, hlen, hi, _, _, hpre, hcount, hlaid⟩ := hc
+  obtain ⟨info, recs, phrases, l, sub, hbytes, hlen, hi, _, hrb, hpre, hcount, hlaid, hvalid⟩ := hc
   have hbody := tlv_content_le tagSequence (docBody info (recs.flatMap recBytes) (encPhrases phrases))
   have hbl : (docBody info (recs.flatMap recBytes) (encPhrases phrases)).length ≤ maxLen := by
     rw [hbytes] at hlen; unfold encSeq at hlen; omega
@@ -421,6 +433,8 @@ theorem reader_on_conforming_file (bytes : Bytes) (hc : Conforms bytes) :
     have := decSeq_encSeq decBody _ [] _ (decBody_docBody info _ (encPhrases phrases) hi hbl) hbl
     simp only [List.append_nil] at this
     rw [this]
+    simp only
+    rw [if_pos (by unfold validIndex; rw [parseRecs_flatMap _ hrb]; exact hvalid)]
   have hall : ∀ st k, ValidKey k →
       lookupAll { info := info, index := recs.flatMap recBytes, data := encPhrases phrases } k st =
         tLookup st k (.node 0 l sub) :=
@@ -537,6 +551,11 @@ example : (sampleTwoLeaves.map fun t => (lookupFirstN t [10240] 3 .fuzzyPartialP
     some [[25830], [25831], [28204]] := by decide
 example : (sampleTwoLeaves.map fun t => (collectN t.index t.data 3
     ((walk t.index .fuzzyPartialPrefix [10240] [viewAt t.index 0]).getD []) []).length) = some 4 := by decide
+
+-- the validation is not vacuous: the sample file with ONE index byte overwritten (the child-begin field of the root,
+-- 1 -> 0: the root becomes its own child, C12's finding F16) decodes as DER but is rejected by `openTrie`
+example : ((TrieCodec.Builder.ofEntries {} sampleEntries).write.map fun bytes =>
+    (bytes[28]?, openTrie (bytes.set 28 0), (openTrie bytes).isSome)) = some (some 1, none, true) := by decide
 
 -- enumeration: three (key, phrase) pairs (the iterator pops each round's results: deepest first)
 example : (sampleTrie.map fun t => (entries t).map fun es => es.map (·.1)) =
